@@ -10,7 +10,15 @@ R2 `Port._init_consumer` is a plain function that creates an unbounded FIFO `asy
    unconditionally -- a late subscriber misses / duplicates / reorders nothing.
 R3 `Port.get` initialises an unknown consumer before its first dequeue, with no suspension
    between the membership test and the initialisation; dequeues exactly once per call from the
-   consumer's own queue and returns the dequeued token on every path.
+   consumer's own queue and returns the dequeued token on every path.  Decided on branch facts
+   (sfverif.facts): no dequeue is reachable from the entry once the edges on which
+   `consumer in self.queues` holds and the `_init_consumer` nodes are cut; no `_init_consumer` is
+   reachable once the edges on which the consumer is absent are cut (a known consumer is never
+   re-initialised: its queue would be replaced by a fresh replay); from a suspension point no
+   `_init_consumer` is reachable without evaluating the membership again.  The test may be spelled
+   with either polarity, as a guard clause, inside a conjunction, or stored in a local flag that is
+   assigned once outside every loop (the membership is then evaluated at the assignment, so an
+   await between the assignment and the initialisation is a violation).
 R4 ownership (whole program, P8): `token_list` / `queues` are mutated only by
    `Port.put/_init_consumer/__init__`; per-consumer queues are written/read only by
    `Port.put/_init_consumer/get` (a foreign `get` would steal a token, a foreign `put` duplicate one).
